@@ -40,6 +40,26 @@ type surveyxCfg struct {
 	label   string
 	nodes   int
 	surveys []surveyxSurvey
+	// slowPublish: the control transport takes 2 s to acknowledge a survey request (the request is
+	// on its way at once, PublishControl returns 2 s later); 's' answers arrive 1 s into that
+	slowPublish bool
+}
+
+// surveyxSlowEndpoint is the issuing node's controller endpoint with a slow acknowledgement.
+type surveyxSlowEndpoint struct {
+	*vLoopEndpoint
+	n          *Node
+	publishing *int
+}
+
+func (e *surveyxSlowEndpoint) PublishControl(data []byte, nodeID, shardKey string) error {
+	err := e.vLoopEndpoint.PublishControl(data, nodeID, shardKey)
+	if cmd, derr := e.n.controlDecoder.DecodeCommand(data); derr == nil && cmd.SurveyRequest != nil {
+		*e.publishing++
+		time.Sleep(2 * time.Second)
+		*e.publishing--
+	}
+	return err
 }
 
 var surveyxCfgs = map[string]surveyxCfg{}
@@ -48,6 +68,9 @@ func (c surveyxCfg) name() string {
 	var l []string
 	for _, s := range c.surveys {
 		l = append(l, fmt.Sprintf("%s@n%d+%ds[%s]", s.op, s.node, s.delay/time.Second, strings.Join(s.beh, ",")))
+	}
+	if c.slowPublish {
+		return fmt.Sprintf("%s/N%d/slow-publish/%s", c.label, c.nodes, strings.Join(l, "/"))
 	}
 	return fmt.Sprintf("%s/N%d/%s", c.label, c.nodes, strings.Join(l, "/"))
 }
@@ -81,6 +104,10 @@ func surveyxVariants(tier string) []vsched.Variant {
 		{surveyxCfg{label: "local-silent", nodes: 2, surveys: []surveyxSurvey{s(0, "x", 0, "-", "a")}}, 1, 1, 2, 4},
 		{surveyxCfg{label: "dup-missing", nodes: 3, surveys: []surveyxSurvey{s(0, "x", 0, "a", "aa", "-")}}, 1, 2, 1, 2},
 		{surveyxCfg{label: "dup", nodes: 3, surveys: []surveyxSurvey{s(0, "x", 0, "a", "aa", "a")}}, 1, 2, 1, 2},
+		// the acknowledgement of the survey request is slow; the duplicate arrives at once, the last node's
+		// answer 1 s later, the acknowledgement after 2 s: a collector that is running drains in between
+		{surveyxCfg{label: "dup", nodes: 3, slowPublish: true, surveys: []surveyxSurvey{s(0, "x", 0, "a", "aa", "s")}}, 1, 2, 2, 4},
+		{surveyxCfg{label: "nodup", nodes: 3, slowPublish: true, surveys: []surveyxSurvey{s(0, "x", 0, "a", "a", "s")}}, 1, 2, 2, 4},
 		// thorough only
 		{surveyxCfg{label: "two-same-node", nodes: 3, surveys: []surveyxSurvey{s(0, "x", 0, x3...), s(0, "y", 0, "a", "a", "-")}}, -1, 0, 0, 8},
 		{surveyxCfg{label: "cross-foreign", nodes: 3, surveys: []surveyxSurvey{s(0, "x", 0, x3...), s(1, "y", 0, "a", "a", "fa")}}, -1, 0, 0, 8},
@@ -102,7 +129,7 @@ func surveyxVariants(tier string) []vsched.Variant {
 func init() {
 	vsched.Register(&vsched.Harness{
 		Name: "surveyx", Props: []string{"C41"}, Kind: "sched",
-		Doc: "2-3 nodes joined by a synchronous loop-back controller; 1-2 surveys (same node / different nodes with equal survey ids / started at or after the first one's deadline) with a 5 s context deadline on the virtual clock; every answer is delivered by its own responder thread: once, twice (duplicate), never, exactly at the deadline, 1 s late, plus responses with a survey id nobody issued; the issuing node answers inside its handler, from another thread, or never. Virtual time advances only at quiescence. Oracle: every returned entry belongs to a node of the cluster and equals an answer that node gave to THIS survey (no foreign / mixed / other-survey data), at most one entry per node; error nil => an entry for every expected node; error => context.DeadlineExceeded and the deadline has been reached; at every quiescent point a survey whose expected nodes all answered, or whose deadline is reached, has returned; all surveys return (nothing blocks); deadlocks and panics are reported by the scheduler",
+		Doc:      "2-3 nodes joined by a synchronous loop-back controller; 1-2 surveys (same node / different nodes with equal survey ids / started at or after the first one's deadline) with a 5 s context deadline on the virtual clock; every answer is delivered by its own responder thread: once, twice (duplicate), never, exactly at the deadline, 1 s late, plus responses with a survey id nobody issued; the issuing node answers inside its handler, from another thread, or never. Virtual time advances only at quiescence. Oracle: every returned entry belongs to a node of the cluster and equals an answer that node gave to THIS survey (no foreign / mixed / other-survey data), at most one entry per node; error nil => an entry for every expected node; error => context.DeadlineExceeded and the deadline has been reached; at every quiescent point a survey whose expected nodes all answered, or whose deadline is reached, has returned; all surveys return (nothing blocks); deadlocks and panics are reported by the scheduler",
 		Variants: surveyxVariants,
 		Sched:    func(v vsched.Variant) func() { return surveyxBody(surveyxCfgs[v.Name]) },
 	})
@@ -135,15 +162,23 @@ func surveyxBody(cfg surveyxCfg) func() {
 		dupClass := "nodup"
 		for _, s := range cfg.surveys {
 			for _, b := range s.beh {
-				if strings.Count(b, "a")+strings.Count(b, "e")+strings.Count(b, "l") > 1 {
+				if strings.Count(b, "a")+strings.Count(b, "e")+strings.Count(b, "l")+strings.Count(b, "s") > 1 {
 					dupClass = "dup"
 				}
 			}
 		}
+		if cfg.slowPublish {
+			dupClass += ":slow-publish"
+		}
+		publishing := 0
 		for i := 0; i < cfg.nodes; i++ {
 			i := i
 			n := vNewNode(nil)
-			n.SetController(&vLoopEndpoint{hub: ctl})
+			if cfg.slowPublish {
+				n.SetController(&surveyxSlowEndpoint{vLoopEndpoint: &vLoopEndpoint{hub: ctl}, n: n, publishing: &publishing})
+			} else {
+				n.SetController(&vLoopEndpoint{hub: ctl})
+			}
 			n.OnSurvey(func(e SurveyEvent, cb SurveyCallback) {
 				r := runs[e.Op]
 				if r == nil {
@@ -173,6 +208,11 @@ func surveyxBody(cfg surveyxCfg) func() {
 						}
 					case 'A':
 						spawn(answer)
+					case 's':
+						spawn(func() {
+							time.Sleep(time.Until(r.t0.Add(time.Second)))
+							answer()
+						})
 					case 'e':
 						spawn(func() {
 							time.Sleep(time.Until(r.t0.Add(surveyxD)))
@@ -246,6 +286,10 @@ func surveyxBody(cfg surveyxCfg) func() {
 			if strings.Contains(strings.Join(s.beh, ""), "l") {
 				timeSet[s.delay+surveyxD+time.Second] = true
 			}
+			if cfg.slowPublish {
+				timeSet[s.delay+time.Second] = true
+				timeSet[s.delay+2*time.Second] = true
+			}
 		}
 		var times []time.Duration
 		for t := range timeSet {
@@ -264,7 +308,7 @@ func surveyxBody(cfg surveyxCfg) func() {
 				switch {
 				case !now.Before(r.t0.Add(surveyxD)):
 					vsched.Failf("not-returned-at-deadline:"+dupClass, "survey %s started at +%v with a %v deadline has not returned at +%v (quiescent)", op, surveyxRel(r.t0), surveyxD, surveyxRel(now))
-				case allAnswered(r):
+				case allAnswered(r) && publishing == 0: // Survey cannot return before its own request is acknowledged
 					vsched.Failf("not-returned-when-all-answered:"+dupClass, "every node answered survey %s (answers %v) but at +%v, before the deadline, it has not returned (quiescent: it now waits for the deadline)", op, surveyxGiven(r, cfg.nodes), surveyxRel(now))
 				}
 			}
